@@ -299,6 +299,17 @@ func TestDeterminism(t *testing.T) {
 			files[src+".proto"] = "syntax = \"proto3\";\n\npackage " + pkg + ";\n\nmessage StaleLeftover {\n  string was_here = 1;\n}\n"
 			cls = append(cls, "stale-generated-file")
 		}
+		// a package nested under another package's directory (acme.v1 and
+		// acme.v1.audit.v1): which package a file belongs to must not depend on the
+		// order in which the packages are listed
+		if rapid.IntRange(0, 3).Draw(t, "nestedpkg") == 0 {
+			p0 := b.Packages[0]
+			if d0 := p0.Files[0].Decls[0]; d0.Object != nil {
+				dir := strings.ReplaceAll(p0.Name, ".", "/") + "/audit/v1"
+				files[dir+"/nested.j5s"] = "package " + p0.Name + ".audit.v1\n\nimport " + p0.Name + "\n\nobject NestedAudit {\n\tfield subject object:" + p0.Name + "." + d0.Object.Name + "\n\tfield note string\n}\n"
+				cls = append(cls, "nested-package")
+			}
+		}
 		c := detCase{Files: files, Repeats: 2}
 		var names []string
 		for f := range files {
